@@ -200,13 +200,17 @@ def run(ctx) -> None:
         raise AnalysisError("anchor vanished: while loop of InotifyBuffer.run")
     W = wl[0]
     flagvars = set(re.findall(r"not (\w+)", W.raw))
-    ctx.check(bool(flagvars), RR, "reader loop condition tests a termination flag", f"loop condition `{W.raw}` has no negated termination flag", bf.loc)
+    # the thread's own stop event is a termination flag too, when the loop condition consults it
+    event_flag = "should_keep_running()" in W.raw or "_stopped_event.is_set()" in W.raw
+    ctx.check(bool(flagvars) or event_flag, RR, "reader loop condition tests a termination flag", f"loop condition `{W.raw}` tests neither a negated local flag nor the thread's stop event", bf.loc)
     got = {"ignored": False, "delete_self": False}
     inner = find_loops(W.extra["paths"], lambda e: e.extra.get("kind") == "for")
     for IL in inner:
         for b in IL.extra["paths"]:
             c = b.conds()
-            sets_flag = any(e.kind == "assign" and e.extra.get("name") in flagvars and e.text.endswith("= True") for e in b.evs)
+            sets_flag = any(e.kind == "assign" and e.extra.get("name") in flagvars and e.text.endswith("= True") for e in b.evs) or (
+                event_flag and any(e.kind == "call" and e.extra.get("func") in ("self._stopped_event.set", "self.stopped_event.set") for e in b.evs)
+            )
             root_eq = any(t and "==" in a and "self._inotify.path" in a for a, t in c.items())
             if sets_flag and root_eq and any(t and a.endswith(".is_ignored") for a, t in c.items()):
                 got["ignored"] = True
@@ -467,6 +471,7 @@ VARIANTS = [
     dict(name="B read_events returns None after close", expect="fire", rule="C07/thread-body-exception-flow", edits=[(IC, "                    if self._closed:\n                        self._close_resources()\n                        return []", "                    if self._closed:\n                        self._close_resources()\n                        return None")]),
     dict(name="B emitter re-reads the buffer field after its None-test (pre-fix)", expect="fire", rule="C07/cleared-field-read-once", edits=[(IN, "            inotify = self._inotify\n            if inotify is None:\n", "            inotify = self._inotify\n            if self._inotify is None:\n"), (IN, "            event = inotify.read_event()", "            event = self._inotify.read_event()")]),
     dict(name="B descriptor decoded unsigned (overflow record passes the filter)", expect="fire", rule="C07/thread-body-exception-flow", edits=[(IC, 'struct.unpack_from("iIII", event_buffer, i)', 'struct.unpack_from("IIII", event_buffer, i)')]),
+    dict(name="E reader ends its loop through its own stop event", expect="silent", edits=[(IB, "        deleted_self = False\n        while self.should_keep_running() and not deleted_self:", "        while self.should_keep_running():"), (IB, "                        # was deleted, or filesystem was unmounted), stop watching for events\n                        deleted_self = True", "                        # was deleted, or filesystem was unmounted), stop watching for events\n                        self._stopped_event.set()"), (IB, "                    # Deleted the watched directory, stop watching for events\n                    deleted_self = True", "                    # Deleted the watched directory, stop watching for events\n                    self._stopped_event.set()")]),
     dict(name="B reader normalises its root", expect="fire", rule="C07/root-spelling-preserved", edits=[(IC, "        self._path = path\n", "        self._path = path = os.path.normpath(path)\n")]),
     dict(name="B emitter resolves the root before watching", expect="fire", rule="C07/root-spelling-preserved", edits=[(IN, "        path = os.fsencode(self.watch.path)\n", "        path = os.path.realpath(os.fsencode(self.watch.path))\n")]),
     dict(name="B root test against the absolute path", expect="fire", rule="C07/root-spelling-preserved", edits=[(IN, "elif event.is_delete_self and src_path == self.watch.path:", "elif event.is_delete_self and src_path == os.path.abspath(self.watch.path):")]),
